@@ -98,6 +98,12 @@ def run(ctx):
                      {'LBZIP2_VERIF_SCHED': '%d:straggler:40' % rnd.randrange(1, 1 << 30), 'LBZIP2_VERIF_IN_GRANUL': str(rnd.choice([1024, 4096]))}))
     for c in [c for c in streams.compress_cases(ctx, 50 if q else 1500, 60 if q else 1500, nbig=1 if q else 12, maxsize=500000 if q else 3000000) if not c.get('gen')]:
         jobs.append(('compress ' + c['fam'], ['-%d' % c['level'], '-n', str(c['w'])] + (['-u'] if c['ultra'] else []), c['data'], c['env']))
+    for i in range(8 if q else 120):
+        # slow head block with many cheap blocks behind it: compression-side queues at their limits
+        w = rnd.choice([2, 3, 4])
+        d = rnd.randbytes(100000) + bytes(100000) * (2 * w + rnd.randint(2, 6))
+        jobs.append(('compress head-held-back', ['-1', '-n', str(w)], d,
+                     {'LBZIP2_VERIF_SCHED': '%d:holdblock:%d' % (3 * rnd.randrange(1, 1 << 20), rnd.choice([100, 300]))}))
     for i in range(6 if q else 60):
         jobs.append(('copy', ['-cdf', '-n', '2'], rnd.randbytes(rnd.choice([0, 2, 65536, 200001])), {}))
 
